@@ -146,7 +146,7 @@ def main():
         # the pre-fix shape: `if not self._cache_is_valid(store_filename, filename): return None`
         for n in ast.walk(fns['load']):
             if isinstance(n, ast.If) and ast.unparse(n.test) == 'not self._cache_is_valid(store_filename, filename)':
-                inv = {'≥': '<', '>': '≤', '<': '≥', '≤': '>'}
+                inv = {'≥': '<', '>': '≤', '<': '≥', '≤': '>', '=': '≠', '≠': '='}
                 a, op, b = valid.split(' ')
                 a, b = ('entryM' if a == 'storeM' else a), ('entryM' if b == 'storeM' else b)
                 stale = '%s %s %s' % (a, inv[op], b)
